@@ -105,8 +105,8 @@ def alternatives(fnode, name):
     None when it is bound in another way."""
     out = []
     for st in stores_of(fnode, name):
-        if not (isinstance(st, ast.Assign) and len(st.targets) == 1
-                and isinstance(st.targets[0], ast.Name)):
+        if not (isinstance(st, ast.Assign) and all(
+                isinstance(t, ast.Name) for t in st.targets)):
             return None
         conds = path_conds(st)
         todo = [(st.value, conds)]
@@ -293,3 +293,66 @@ def sign_by_prefix(fnode, e, char="-"):
         if seen == {-1, 1}:
             return subj
     return None
+
+
+def consistent(conds):
+    seen = {}
+    for t, pol in conds:
+        k = U(t)
+        if seen.setdefault(k, pol) != pol:
+            return False
+    return True
+
+
+def value_alternatives(fnode, e, params=()):
+    """Alternatives of an argument expression: a conditional expression
+    gives both arms, a local name assigned in several places its values.
+    -> [(expr, conds)]"""
+    if isinstance(e, ast.IfExp):
+        return ([(v, [(e.test, True)] + c)
+                 for v, c in value_alternatives(fnode, e.body, params)] +
+                [(v, [(e.test, False)] + c)
+                 for v, c in value_alternatives(fnode, e.orelse, params)])
+    if isinstance(e, ast.Name) and e.id not in params:
+        alts = alternatives(fnode, e.id)
+        if alts and len(alts) > 1:
+            return [(v, list(c)) for v, c in alts]
+    return [(e, [])]
+
+
+def call_alternatives(fnode, call, params=()):
+    """Keyword arguments of a call with `**mapping`, conditional-expression
+    and branch-assigned values resolved.
+    -> [({keyword: expr}, conds)] or None when a ** operand is not a
+    dictionary literal on every path."""
+    base = path_conds(call)
+    alts = [({}, [])]
+    for k in call.keywords:
+        options = []
+        if k.arg is None:
+            srcs = value_alternatives(fnode, k.value, params)
+            if isinstance(k.value, ast.Name) and len(srcs) == 1 and \
+                    srcs[0][0] is k.value:
+                one = alternatives(fnode, k.value.id)
+                if not one:
+                    return None
+                srcs = [(v, list(c)) for v, c in one]
+            for v, c in srcs:
+                if not (isinstance(v, ast.Dict) and all(
+                        isinstance(x, ast.Constant) for x in v.keys)):
+                    return None
+                options.append(({x.value: y for x, y in zip(v.keys, v.values)},
+                                c))
+        else:
+            for v, c in value_alternatives(fnode, k.value, params):
+                options.append(({k.arg: v}, c))
+        new = []
+        for kw, c in alts:
+            for kw2, c2 in options:
+                cc = c + c2
+                if consistent(cc + base):
+                    d = dict(kw)
+                    d.update(kw2)
+                    new.append((d, cc))
+        alts = new
+    return [(kw, c + base) for kw, c in alts]
